@@ -269,6 +269,22 @@ Definition w_has_root (l : list byte) : bool :=
       end
   | _ => false
   end.
+(* the same two queries asked of a partially consumed iterator *)
+Definition ws_is_absolute (s : wstate) : bool :=
+  match w_nextf s with
+  | Some (WPrefix _ _, s1) => match w_nextf s1 with Some (WC Root, _) => true | _ => false end
+  | _ => false
+  end.
+Definition ws_has_root (s : wstate) : bool :=
+  match w_nextf s with
+  | Some (WC Root, _) => true
+  | Some (WPrefix _ k, s1) =>
+      match k with
+      | Disk _ | VerbatimDisk _ => match w_nextf s1 with Some (WC Root, _) => true | _ => false end
+      | _ => true
+      end
+  | _ => false
+  end.
 Definition w_has_any_verbatim_prefix (l : list byte) : bool :=
   match w_prefix_kind l with Some (Verbatim _ | VerbatimUNC _ _ | VerbatimDisk _) => true | _ => false end.
 Definition w_has_verbatim_prefix l := match w_prefix_kind l with Some (Verbatim _) => true | _ => false end.
